@@ -6,6 +6,7 @@ static double result;
 
 static void setup(void)
 {
+	gen_init();
 	in_xl = nondet_double(); in_xr = nondet_double(); in_acc = nondet_double(); in_f0 = nondet_double(); in_f1 = nondet_double();
 	__CPROVER_assume(in_xl == in_xl && in_xr == in_xr);
 	verif_f_script[0] = in_f0; verif_f_script[1] = in_f1; verif_f_scripted = 2;
